@@ -2,7 +2,9 @@ package mcap
 
 import (
 	"encoding/binary"
+	"errors"
 	"io"
+	"strings"
 )
 
 func readUint64(buf []byte, r io.Reader) (uint64, error) {
@@ -17,11 +19,17 @@ func readPrefixedString(buf []byte, r io.Reader) (string, error) {
 		return "", err
 	}
 	strlen := binary.LittleEndian.Uint32(buf[:4])
-	s := make([]byte, strlen)
-	if _, err := io.ReadFull(r, s); err != nil {
+	// grow with the data that actually arrives instead of allocating what the length field
+	// claims (up to 4 GiB for a few hostile bytes).
+	var s strings.Builder
+	n, err := io.CopyN(&s, r, int64(strlen))
+	if err != nil {
+		if errors.Is(err, io.EOF) && n > 0 {
+			err = io.ErrUnexpectedEOF
+		}
 		return "", err
 	}
-	return string(s), nil
+	return s.String(), nil
 }
 
 func putByte(buf []byte, x byte) (int, error) {
